@@ -365,6 +365,64 @@ fn day_via_hour(n: i64, seed: u64, log: &mut Log) {
   }
 }
 
+/// (officer, spirit, mansion, day nine star) of civil day n by the same rules as `check_year_days`, for single days
+fn day_oracle(n: i64) -> Option<(i64, i64, i64, i64)> {
+  let t = terms();
+  let (y, _, _) = cal().date(n);
+  let g = t.v[t.governing_day(n)?];
+  let (dz, xz, dz2) = (t.get(y, 0).dn, t.get(y, 12).dn, t.get(y + 1, 0).dn);
+  let (sb, nz, sb2) = (nearest_jiazi(dz), nearest_jiazi(xz), nearest_jiazi(dz2));
+  let (_, k) = year_month_of(&g);
+  let mb = (2 + k) % 12;
+  let db = day_pillar(n) % 12;
+  let nine = if n >= sb && n < nz {
+    (n - sb).rem_euclid(9)
+  } else if n >= nz && n < sb2 {
+    (8 - (n - nz)).rem_euclid(9)
+  } else if n >= sb2 {
+    (n - sb2).rem_euclid(9)
+  } else {
+    (8 + (sb - n)).rem_euclid(9)
+  };
+  Some(((db - mb).rem_euclid(12), (db - qinglong_start(mb)).rem_euclid(12), (n + 11).rem_euclid(28), nine))
+}
+
+/// one history operation on civil day n: the day series by a drawn route
+fn history_op(n: i64, rng: &mut Rng) -> (String, Vec<String>, u64) {
+  let name = cal::fmt_dn(n);
+  if cal::reform_era_day(n) {
+    return (format!("skip({})", name), vec![], 0);
+  }
+  let want = match day_oracle(n) {
+    Some(w) => w,
+    None => return (format!("skip({})", name), vec![], 0),
+  };
+  let mut bad = vec![];
+  let sd = sd_of_dn(n);
+  let route = rng.below(3);
+  let got = match route {
+    0 => {
+      let d = sd.get_sixty_cycle_day();
+      (d.get_duty().get_index() as i64, d.get_twelve_star().get_index() as i64, d.get_twenty_eight_star().get_index() as i64, d.get_nine_star().get_index() as i64)
+    }
+    1 => {
+      let l = sd.get_lunar_day();
+      (l.get_duty().get_index() as i64, l.get_twelve_star().get_index() as i64, l.get_twenty_eight_star().get_index() as i64, l.get_nine_star().get_index() as i64)
+    }
+    _ => {
+      // through the noon hour of the day
+      let h = st_of_abs(n * 86400 + 43200).get_lunar_hour();
+      let _ = h.get_sixty_cycle_hour();
+      let l = h.get_lunar_day();
+      (l.get_duty().get_index() as i64, l.get_twelve_star().get_index() as i64, l.get_twenty_eight_star().get_index() as i64, l.get_nine_star().get_index() as i64)
+    }
+  };
+  if got != want {
+    bad.push(format!("(officer, spirit, mansion, nine star) = {:?}, expected {:?}", got, want));
+  }
+  (format!("{}({})", ["sixty-day", "lunar-day", "via-noon-hour"][route], name), bad, 1)
+}
+
 fn year_and_month_stars(y: i64, log: &mut Log) {
   log.ev(2);
   let key = format!("{:05}", y);
@@ -481,6 +539,9 @@ pub fn run(cfg: &Cfg) -> (Log, Meta) {
     }
   }));
   log.merge(par_range(10001, 64, |i, l| year_and_month_stars(i as i64 - 1, l)));
+  let nhist = cfg.tier.pick(30_000usize, 500_000usize);
+  log.merge(par_range(nhist, 100, |i, l| crate::history::day_walk("C17", "a sequence of day-series look-ups on related days on one thread", i, cfg.seed, cal().year_first(2), cal().year_first(9999) - 1, l, history_op)));
+  log.floor("history.answers_judged", cfg.tier.pick(250_000, 4_000_000));
   log.floor("day.jie_days_where_the_officer_repeats", cfg.tier.pick(5_000, 100_000));
   log.floor("day.leap_month_days", cfg.tier.pick(3_000, 90_000));
   log.floor("day.nine_star_turning_days", cfg.tier.pick(500, 10_000));
@@ -494,14 +555,16 @@ pub fn run(cfg: &Cfg) -> (Log, Meta) {
   log.floor("year.month_stars", 120_000);
   let meta = Meta {
     rule: format!(
-      "day series on every civil date of {} years{}: officer = (day branch - month branch) mod 12, Yellow/Black-path spirit from the month-branch group, mansion = (N+11) mod 28 with +1 per day and luminary = weekday, day nine star from the Jiazi days nearest the solstices, six-day star, phase, minor Ren, each by both routes where two exist, plus officer / spirit / mansion / six-day star read from yesterday's (memo-filled) lunar date stepped by one day; one-step-per-day continuity of the day nine star; every leap-month day of {} lunar years (six-day star with the month's own number, equal to the regular twin); the 12 double-hours (hours 0,1,3..21) of {} seeded days (1/5 within -3..+12 days of a solstice): hour nine star, hour spirit, hour minor Ren by both routes; on the same draws (every third one moved to a Jie day of the year) the day almanac (15 cycle indices by both routes, fetus, gods, recommends, avoids, civil day) of hour.get_lunar_day() taken after a drawn subset of hour-level getters at 23:xx, 00:xx, a random hour and both sides of the Jie instant, against a freshly built day of the same civil date; year star of every year -1..9999 and month stars of all 12 months of every sexagenary year 0..9999 (covers all 12 x 12 year-branch/month pairs), lunar-month stars in years without a leap month. Non-trivial = Jie days, nine-star turning days, leap-month days, distinct sampled days.",
+      "day series on every civil date of {} years{}: officer = (day branch - month branch) mod 12, Yellow/Black-path spirit from the month-branch group, mansion = (N+11) mod 28 with +1 per day and luminary = weekday, day nine star from the Jiazi days nearest the solstices, six-day star, phase, minor Ren, each by both routes where two exist, plus officer / spirit / mansion / six-day star read from yesterday's (memo-filled) lunar date stepped by one day; one-step-per-day continuity of the day nine star; every leap-month day of {} lunar years (six-day star with the month's own number, equal to the regular twin); the 12 double-hours (hours 0,1,3..21) of {} seeded days (1/5 within -3..+12 days of a solstice): hour nine star, hour spirit, hour minor Ren by both routes; on the same draws (every third one moved to a Jie day of the year) the day almanac (15 cycle indices by both routes, fetus, gods, recommends, avoids, civil day) of hour.get_lunar_day() taken after a drawn subset of hour-level getters at 23:xx, 00:xx, a random hour and both sides of the Jie instant, against a freshly built day of the same civil date; histories: {} seeded single-thread sequences of 6..16 look-ups of (officer, spirit, mansion, day nine star) through the sexagenary day, the lunar day or the noon hour's lunar day, on related days - {}; year star of every year -1..9999 and month stars of all 12 months of every sexagenary year 0..9999 (covers all 12 x 12 year-branch/month pairs), lunar-month stars in years without a leap month. Non-trivial = Jie days, nine-star turning days, leap-month days, distinct sampled days.",
       years.len(),
       match cfg.tier {
         Tier::Thorough => " (1..9998, exhaustive)",
         Tier::Quick => " (seed mod 20 plus the worst-case eras)",
       },
       leap_years.len(),
-      nh
+      nh,
+      nhist,
+      crate::history::WALK_TEXT
     ),
     assumptions: vec![
       "rule encodings are the harness' own transcription; mansion anchor from two published almanac days (2020-05-05 Yi, 2023-11-11 Liu)".into(),
